@@ -103,6 +103,10 @@ def build_jobs(ctx, sc, exe, thorough, want_class=("ws",)):
                 for n in ws_bools:
                     if n.startswith("nl_"):
                         opts[n] = "true"
+            if lang == "CPP" and "class K" in txt and rng.random() < 0.5:
+                # a class head / constructor with comments before the colons: move the colons
+                opts["pos_class_colon"] = rng.choice(["lead", "lead_break", "lead_force", "trail", "trail_break", "trail_force"])
+                opts["pos_constr_colon"] = rng.choice(["lead", "lead_break", "lead_force", "trail", "trail_break", "trail_force"])
             opts.update({"indent_columns": rng.choice([2, 4, 8]), "indent_with_tabs": rng.choice([0, 1, 2]),
                          "code_width": rng.choice([0, 0, 40, 80]), "align_assign_span": rng.choice([0, 2]),
                          "align_var_def_span": rng.choice([0, 2]), "align_nl_cont": rng.choice(["false", "true"]) if False else rng.choice([0, 1]),
